@@ -73,8 +73,8 @@ example : egcdI64 (12 : Nat) (5 : Nat) = some (1, -2, 5) ∧ egcdI64 (7 : Nat) (
 /-- `no_panic`, extended variant with the real cofactor width, on the domain `max(n, p) < 2^(64N-7)`
 (1017 bits for N = 16, 505 bits for N = 8, 249 bits for N = 4; `no_panic_ext` had `64N-12`):
 `gcd_internal::<N, true>` never panics — no `BInt<N>` cofactor operation overflows, nor any other
-site — and it returns the gcd with valid Bezout cofactors; the returned `u` is at most
-`64 * max(n, p) + 1` in absolute value. The domain is SHARP: `no_panic_ext_threshold`.
+site — and it returns the gcd with valid Bezout cofactors; the returned `u` and `v` are at most
+`64 * max(n, p) + 1 < 2^(64N-1)` in absolute value (they fit `BInt<N>`). The domain is SHARP: `no_panic_ext_threshold`.
 Invariant behind it (Ymq/Lemmas/GcdCof7.lean), for the state after the swap (`y <= x`, rows `(A, B)`
 of `x` and `(C, D)` of `y`): `|A| * y <= 121 * max(n, p)`, `|B| * y <= 121 * max(n, p)` and all four
 cofactors at most `63 * max(n, p) + 1`. With the determinant identity `x * C - y * A = -+p`, the
@@ -89,14 +89,16 @@ were found by a directed search: see ADV_TOPS in props/c09.py). -/
 theorem no_panic_ext_wide (N : Nat) (hN : 0 < N) (n p : Nat) (hn : n < 2 ^ (64 * N - 7))
     (hp : p < 2 ^ (64 * N - 7)) :
     ∃ (d : Nat) (u v : Int), gcdInternal N true n p = some (d, u, v) ∧
-      d = Nat.gcd n p ∧ u * n + v * p = d ∧ u.natAbs ≤ 64 * max n p + 1 := by
-  obtain ⟨d, u, v, hr, hu⟩ := T7.gcdInternal_ext_total hN hn hp
+      d = Nat.gcd n p ∧ u * n + v * p = d ∧ u.natAbs ≤ 64 * max n p + 1 ∧ v.natAbs ≤ 64 * max n p + 1 := by
+  obtain ⟨d, u, v, hr, hu, hv⟩ := T7.gcdInternal_ext_total hN hn hp
   have hr' := hr
   unfold gcdInternal at hr'
   obtain ⟨h1, h2⟩ := gcdLoop_spec hN _ _ d u v hr' (GInv_init true n p)
-  refine ⟨d, u, v, hr, h1, h2 rfl, ?_⟩
-  rw [Int.abs_eq_natAbs] at hu
-  exact_mod_cast hu
+  refine ⟨d, u, v, hr, h1, h2 rfl, ?_, ?_⟩
+  · rw [Int.abs_eq_natAbs] at hu
+    exact_mod_cast hu
+  · rw [Int.abs_eq_natAbs] at hv
+    exact_mod_cast hv
 
 example : (2 ^ 248 + 12345 : Nat) < 2 ^ (64 * 4 - 7) ∧ ¬ (2 ^ 248 + 12345 : Nat) < 2 ^ (64 * 4 - 12) ∧
     ∃ u v, gcdInternal 4 true (2 ^ 248 + 12345) (2 ^ 247 + 77) = some (1, u, v) := by
@@ -150,7 +152,7 @@ theorem inv_mod_total (N : Nat) (hN : 0 < N) (n p : Nat) (hp0 : p ≠ 0)
     rw [if_neg hp0]
     split
     · split <;> exact ⟨_, rfl⟩
-    · obtain ⟨d, u, v, hr, hu⟩ := T7.gcdInternal_ext_total hN hn hp
+    · obtain ⟨d, u, v, hr, hu, _⟩ := T7.gcdInternal_ext_total hN hn hp
       rw [hr]
       simp only
       split
